@@ -124,23 +124,17 @@ func writeMultipartFormFile(w *multipart.Writer, file *FileUpload, r *Request) e
 }
 
 func writeMultiPart(r *Request, w *multipart.Writer) error {
-	if len(r.FormData) > 0 {
-		for k, vs := range r.FormData {
-			for _, v := range vs {
-				if err := w.WriteField(k, v); err != nil {
-					return err
-				}
-			}
+	if len(r.OrderedFormData)%2 != 0 {
+		return errBadOrderedFormData
+	}
+	for i := 0; i+1 < len(r.OrderedFormData); i += 2 {
+		if err := w.WriteField(r.OrderedFormData[i], r.OrderedFormData[i+1]); err != nil {
+			return err
 		}
-	} else if len(r.OrderedFormData) > 0 {
-		if len(r.OrderedFormData)%2 != 0 {
-			return errBadOrderedFormData
-		}
-		maxIndex := len(r.OrderedFormData) - 2
-		for i := 0; i <= maxIndex; i += 2 {
-			key := r.OrderedFormData[i]
-			value := r.OrderedFormData[i+1]
-			if err := w.WriteField(key, value); err != nil {
+	}
+	for k, vs := range r.FormData {
+		for _, v := range vs {
+			if err := w.WriteField(k, v); err != nil {
 				return err
 			}
 		}
@@ -215,6 +209,12 @@ func handleOrderedFormData(r *Request) error {
 		buf.WriteByte('=')
 		buf.WriteString(url.QueryEscape(value))
 	}
+	if enc := r.FormData.Encode(); enc != "" { // plain form data set as well: sent after the ordered pairs
+		if buf.Len() > 0 {
+			buf.WriteByte('&')
+		}
+		buf.WriteString(enc)
+	}
 	r.SetBodyString(buf.String())
 	return nil
 }
@@ -269,11 +269,11 @@ func parseRequestBody(c *Client, r *Request) (err error) {
 	}
 
 	// handle form data
-	if len(r.FormData) > 0 {
+	if len(r.OrderedFormData) > 0 {
+		return handleOrderedFormData(r)
+	} else if len(r.FormData) > 0 {
 		handleFormData(r)
 		return
-	} else if len(r.OrderedFormData) > 0 {
-		return handleOrderedFormData(r)
 	}
 
 	// handle marshal body
